@@ -56,12 +56,13 @@ def processPlaintextNodeAndSend(self: Obj("AxolotlSendLayer"), node: Obj("Protoc
     ensures(implies(n_events("getKeysFor") == 1,
                     in_closure(event_arg("getKeysFor", 0, 1), lambda successJids, errors: n_events("sendToContact") == 1
                                and same_obj(event_arg("sendToContact", 0, 0), node) and n_events("toLower") == 0,
-                               argtypes=(ListObj("jid"), DictObjObj), given=lambda successJids, errors: len(errors) == 0 and len(successJids) == 1)))
+                               argtypes=(ListObj("jid"), DictObjObj), given=lambda successJids, errors: len(errors) == 0 and len(successJids) == 1,
+                               total=True)))
     # ... an error for the recipient (unknown user, identity refused) -> reported, NOTHING is encrypted or sent
     ensures(implies(n_events("getKeysFor") == 1,
                     in_closure(event_arg("getKeysFor", 0, 1), lambda successJids, errors: n_events("sendToContact") == 0 and n_events("toLower") == 0
                                and n_events("process_errors") == 1 and same_obj(event_arg("process_errors", 0, 0), errors),
-                               argtypes=(ListObj("jid"), DictObjObj), given=lambda successJids, errors: len(errors) > 0)))
+                               argtypes=(ListObj("jid"), DictObjObj), given=lambda successJids, errors: len(errors) > 0, total=True)))
     propagates("*")
 
 
@@ -124,7 +125,10 @@ def getKeysFor(self: Obj("AxolotlSendLayer"), jids: ListObj("jid"), resultClbk: 
                        and implies(n_events("manager.create_session") >= 1,
                                    event_arg("keysresult.getPreKeyBundleFor", 0, 1) in event_result("keysresult.getJids", 0))
                        and implies(n_events("manager.create_session") == 2,
-                                   event_arg("keysresult.getPreKeyBundleFor", 1, 1) in event_result("keysresult.getJids", 0)),
+                                   event_arg("keysresult.getPreKeyBundleFor", 1, 1) in event_result("keysresult.getJids", 0))
+                       # a jid the server did not answer for is remembered (skipEncJids: written to unencrypted from then on, by design)
+                       and implies(req.jids[0] not in event_result("keysresult.getJids", 0), req.jids[0] in self.skipEncJids)
+                       and implies(req.jids[1] not in event_result("keysresult.getJids", 0), req.jids[1] in self.skipEncJids),
                        argtypes=(Obj("ProtocolTreeNode"), Obj("GetKeysIqProtocolEntity")),
                        given=lambda resultNode, req: self._manager is not None and not same_obj(req.jids[0], req.jids[1])))
     propagates("*")
@@ -141,6 +145,7 @@ event_sort("manager.session_exists", "obj")
 def ensureSessionsAndSendToGroup(self: Obj("AxolotlSendLayer"), node: Obj("ProtocolTreeNode"), jids: ListObj("jid")):
     requires(self._manager is not None)
     # every participant is asked about exactly once; nothing goes down from here
+    # (that the question is asked about the user part of THAT jid is not pinned: jids are opaque objects in this contract)
     ensures(n_events("manager.session_exists") == len(jids) and n_events("toLower") == 0)
     ensures(n_events("getKeysFor") + n_events("sendToGroupWithSessions") == 1)
     # all participants have a session: the group send happens now, once, for all of them
@@ -251,6 +256,9 @@ def sendToGroupWithSessions(self: Obj("AxolotlSendLayer"), node: Obj("ProtocolTr
     ensures(implies(retryCount == 0, event_arg("manager.group_encrypt", 0, 1) == attr(node, "to")
                     and event_arg("manager.group_encrypt", 0, 2) == pure_child(node, "proto").data and n_events("pbmessage.MergeFromString") == 0))
     ensures(implies(retryCount > 0, n_events("pbmessage.MergeFromString") == n_need(jidsNeedSenderKey)))
+    # every envelope entry is version 2 and carries the payload's media type
+    ensures(forall(range(0, n_events("EncProtocolEntity")), lambda i: event_arg("EncProtocolEntity", i, 1) == 2
+                   and event_arg("EncProtocolEntity", i, 3) == attr(pure_child(node, "proto"), "mediatype")))
     # ONE envelope; the participant is named only when this is a retry directed at a single participant
     ensures(n_events("sendEncEntities") == 1 and same_obj(event_arg("sendEncEntities", 0, 0), node)
             and n_events("EncProtocolEntity") == n_need(jidsNeedSenderKey) + (1 if retryCount == 0 else 0))
@@ -267,3 +275,5 @@ def stgws_loop(self, node, jidsNeedSenderKey, retryCount, encEntities: ListObj("
     invariant(n_events("toLower") == 0 and n_events("manager.group_encrypt") == 0 and n_events("sendEncEntities") == 0 and n_events("manager.group_create_skmsg") == 1)
     invariant(forall(range(0, loop_k()), lambda i: event_arg("manager.encrypt", i, 1) == jidsNeedSenderKey[i].split("@")[0]
                      and event_arg("manager.encrypt", i, 2) == event_result("pbmessage.SerializeToString", i)))
+    invariant(forall(range(0, loop_k()), lambda i: event_arg("EncProtocolEntity", i, 1) == 2
+                     and event_arg("EncProtocolEntity", i, 3) == attr(pure_child(node, "proto"), "mediatype")))
